@@ -6,6 +6,6 @@ cd "$(dirname "$0")/.."
 S=$(mktemp -d /var/tmp/mm-XXXX); mkdir -p $S/a $S/b mutants/$1
 for d in src bin std Cargo.toml Cargo.lock; do cp -r /repo/$d $S/a/; cp -r /repo/$d $S/b/; done; mkdir -p $S/a/docsite/site/content $S/b/docsite/site/content; cp -r /repo/docsite/site/content/reference $S/a/docsite/site/content/; cp -r /repo/docsite/site/content/reference $S/b/docsite/site/content/
 if ! (cd $S/b && python3 "$5"); then echo "edit failed"; rm -rf $S; exit 1; fi
-{ echo "# property: $1"; IFS='|' read -ra EXP <<< "$3"; for e in "${EXP[@]}"; do echo "# expect: $e"; done; echo "# what: $4"; (cd $S && diff -ruN a b || true); } > mutants/$1/$2.patch
+{ echo "# property: $1"; if [ "$3" = "NEUTRAL" ]; then echo "# neutral: behaviour-preserving variant, every rule must stay quiet"; else IFS='|' read -ra EXP <<< "$3"; for e in "${EXP[@]}"; do echo "# expect: $e"; done; fi; echo "# what: $4"; (cd $S && diff -ruN a b || true); } > mutants/$1/$2.patch
 rm -rf $S
 echo "mutants/$1/$2.patch: $(grep -c '^@@' mutants/$1/$2.patch) hunk(s)"
